@@ -71,8 +71,8 @@ def race_run(tier, seed, WORK, ROOT, REPO, GOENV):
         except Exception:
             out["broken"].append(("race-run", cmd, (so + se)[-1000:]))
             continue
-        calls += res["calls"]
-        scen.update(res["scenarios"])
+        calls += res.get("calls") or 0
+        scen.update(res.get("scenarios") or [])
         for m in (res.get("Mismatches") or res.get("mismatches") or []):
             out["violations"].append({"kind": "impl-vs-spec", "op": "conc", "class": "conc", "impl": m, "model": "same as sequential", "replay": cmd})
     out["coverage"]["race_processes"] = len(runs)
